@@ -240,10 +240,21 @@ def ExTxn.idle {κ γ ν : Type} : ExTxn κ γ ν := { inTxn := false, queue := 
 
 variable {ν : Type}
 
-/-- `HashMap::insert` -/
+/-- `HashMap::insert` (the pinned commit's `execute_watch`: a later WATCH overwrites) -/
 def upsert [DecidableEq κ] (k : κ) (v : Option ν) : List (κ × Option ν) → List (κ × Option ν)
   | [] => [(k, v)]
   | (k', v') :: m => if k = k' then (k, v) :: m else (k', v') :: upsert k v m
+
+/-- `HashMap::entry(k).or_insert(v)` (since the `fix:` commit: the first snapshot stands) -/
+def putIfAbsent [DecidableEq κ] (k : κ) (v : Option ν) : List (κ × Option ν) → List (κ × Option ν)
+  | [] => [(k, v)]
+  | (k', v') :: m => if k = k' then (k', v') :: m else (k', v') :: putIfAbsent k v m
+
+/-- `keepFirst = false` is the pinned commit, `true` the tree after the `fix:` commit recorded in
+    known_findings.json -/
+def watchPut [DecidableEq κ] (keepFirst : Bool) (k : κ) (v : Option ν)
+    (w : List (κ × Option ν)) : List (κ × Option ν) :=
+  if keepFirst then putIfAbsent k v w else upsert k v w
 
 /-- replay of the queue inside `execute_exec` (`in_transaction` is already false; a queued
     UNWATCH finds `watched_keys` already empty and answers OK = `okR`) -/
@@ -257,7 +268,7 @@ def xrunQueue (X : XBackend σ κ γ ρ ν) (okR : ρ) : σ → List (XQ γ) →
     let q := xrunQueue X okR r.1 cs
     (q.1, r.2 :: q.2)
 
-def xstep [DecidableEq κ] [DecidableEq ν] (X : XBackend σ κ γ ρ ν) (okR : ρ)
+def xstepWith [DecidableEq κ] [DecidableEq ν] (keepFirst : Bool) (X : XBackend σ κ γ ρ ν) (okR : ρ)
     (t : ExTxn κ γ ν) (s : σ) : XInput κ γ → ExTxn κ γ ν × σ × XReply ρ
   | inp =>
     if t.inTxn then
@@ -278,9 +289,14 @@ def xstep [DecidableEq κ] [DecidableEq ν] (X : XBackend σ κ γ ρ ν) (okR :
       | .exec => (t, s, .err .execWithoutMulti)
       | .discard => (t, s, .err .discardWithoutMulti)
       | .watch ks =>
-        ({ t with watched := ks.foldl (fun w k => upsert k (X.value s k) w) t.watched }, s, .ok)
+        ({ t with watched := ks.foldl (fun w k => watchPut keepFirst k (X.value s k) w) t.watched }, s, .ok)
       | .unwatch => ({ t with watched := [] }, s, .ok)
       | .cmd c => (t, (X.exec s c).1, .plain (X.exec s c).2)
+
+/-- the current tree -/
+def xstep [DecidableEq κ] [DecidableEq ν] (X : XBackend σ κ γ ρ ν) (okR : ρ)
+    (t : ExTxn κ γ ν) (s : σ) (i : XInput κ γ) : ExTxn κ γ ν × σ × XReply ρ :=
+  xstepWith true X okR t s i
 
 def xrun [DecidableEq κ] [DecidableEq ν] (X : XBackend σ κ γ ρ ν) (okR : ρ) :
     ExTxn κ γ ν → σ → List (XInput κ γ) → ExTxn κ γ ν × σ × List (XReply ρ)
@@ -371,7 +387,23 @@ def parseI64 (b : Bytes) : Option Int :=
     if -9223372036854775808 ≤ i ∧ i ≤ 9223372036854775807 ∧ showInt i = b then some i else none
   | none => none
 
-def exec (s : Store) : Cmd → Store × Rep
+/-- "default" -/
+def defaultUser : Bytes := [100, 101, 102, 97, 117, 108, 116]
+
+/-- the answer of the connection's own handlers -/
+def localReply : Cmd → Rep
+  | .loc .auth => .simple .ok
+  | .loc .aclWhoami => .bulk (some defaultUser)
+  | .loc .reset => .simple .reset
+  | .loc .clientSetname => .simple .ok
+  | .loc .publish => .int 0
+  | _ => .err .unknownCmd   -- not a connection-level command (never asked by the driver)
+
+/-- what the EXEC loop (and, for data commands, the connection outside MULTI) does with a
+    command.  `localFixed = false` is the pinned commit: every queued command goes to the shard
+    executor, which does not implement the connection-level ones; `true` is the tree after the
+    `fix:` commit: `execute_connection_level(cmd)` answers those, the rest goes to the shards. -/
+def execWith (localFixed : Bool) (s : Store) : Cmd → Store × Rep
   | .get k =>
     match NMap.get s k with
     | some (.str b) => (s, .bulk (some b))
@@ -415,28 +447,26 @@ def exec (s : Store) : Cmd → Store × Rep
   | .ping => (s, .simple .pong)
   | .unwatch => (s, .simple .ok)
   | .unknown => (s, .err .unknownCmd)
-  | .loc .auth => (s, .err .connLevel)
-  | .loc .aclWhoami => (s, .err .connLevel)
-  | .loc .reset => (s, .err .unknownCmd)
-  | .loc .clientSetname => (s, .simple .ok)
-  | .loc .publish => (s, .err .unknownCmd)
+  | .loc l =>
+    if localFixed then (s, localReply (.loc l))
+    else match l with
+      | .auth => (s, .err .connLevel)
+      | .aclWhoami => (s, .err .connLevel)
+      | .reset => (s, .err .unknownCmd)
+      | .clientSetname => (s, .simple .ok)
+      | .publish => (s, .err .unknownCmd)
 
-/-- "default" -/
-def defaultUser : Bytes := [100, 101, 102, 97, 117, 108, 116]
+/-- the current tree -/
+def exec (s : Store) (c : Cmd) : Store × Rep := execWith true s c
 
-def localReply : Cmd → Rep
-  | .loc .auth => .simple .ok
-  | .loc .aclWhoami => .bulk (some defaultUser)
-  | .loc .reset => .simple .reset
-  | .loc .clientSetname => .simple .ok
-  | .loc .publish => .int 0
-  | _ => .err .unknownCmd   -- not a connection-level command (never asked by the driver)
-
-def backend : Txn.Backend Store Nat Cmd Rep where
-  exec := exec
-  getReply := fun s k => (exec s (.get k)).2
+def backendWith (localFixed : Bool) : Txn.Backend Store Nat Cmd Rep where
+  exec := execWith localFixed
+  getReply := fun s k => (execWith localFixed s (.get k)).2
   unwatchCmd := .unwatch
   localReply := localReply
+
+/-- the current tree -/
+def backend : Txn.Backend Store Nat Cmd Rep := backendWith true
 
 def xbackend : Txn.XBackend Store Nat Cmd Rep Val where
   exec := exec
